@@ -1,6 +1,6 @@
 """Engine `toy` - C06 (execution vs. reference accumulator machine), C19 (encoding + assembler),
 C20 (whole steps == half-cycle steps, sequencing errors)."""
-from ..common import rng_for, h64
+from ..common import guarded, rng_for, h64
 from ..refmodels.toy import RefToy, MNEMONICS, ADDRESS_TYPE, decode_word
 
 RULE = {
@@ -65,6 +65,8 @@ def compare(sim, ref, res, case, where):
     bad = []
     if int(sim.state.accu) != ref.acc:
         bad.append("accu real=%#x ref=%#x" % (int(sim.state.accu), ref.acc))
+    if not (0 <= int(sim.state.program_counter) < 4096):
+        bad.append("program counter %d is not a 12-bit value" % int(sim.state.program_counter))
     if (int(sim.state.program_counter) - 1) % 4096 != ref.pc:
         bad.append("pc real=%d (address executed next %d) ref=%d" % (int(sim.state.program_counter), (int(sim.state.program_counter) - 1) % 4096, ref.pc))
     if real_mem(sim) != {a: v for a, v in ref.m.items() if v}:
@@ -462,7 +464,7 @@ def run_shard(spec, res):
                 if a not in (0, 1):
                     pokes[str(a)] = cell
                 case = {"kind": "exec", "text": "NOP\nNOP", "pokes": pokes, "acc": acc, "max_steps": 6, "single_word": (w >> 12) != 12}
-                run_case(prop, case, res)
+                guarded(run_case, prop, case, res)
                 res.evaluations += 1
                 res.count("single_word_cases")
         res.exhaustive = True
@@ -471,7 +473,7 @@ def run_shard(spec, res):
     elif k == "progs":
         for it in range(spec["n"]):
             case = gen_prog_case(rng)
-            run_case(prop, case, res)
+            guarded(run_case, prop, case, res)
             res.evaluations += 1
             res.count("program_cases")
             if it < 1:
@@ -480,7 +482,7 @@ def run_shard(spec, res):
         # a full 4096-instruction program: pc wraps from 4095 to 0
         text = "\n".join(["INC"] * 4095 + ["BRZ 4000"])
         case = {"kind": "exec", "text": text, "pokes": {}, "acc": 0xFFFF - 4094, "max_steps": 4300}
-        run_case(prop, case, res)
+        guarded(run_case, prop, case, res)
         res.evaluations += 1
         res.count("program_cases")
     elif k == "encode":
@@ -490,7 +492,7 @@ def run_shard(spec, res):
     elif k == "asm":
         for it in range(spec["n"]):
             case = gen_source(rng)
-            run_case(prop, case, res)
+            guarded(run_case, prop, case, res)
             res.evaluations += 1
             if it < 1:
                 res.sample(case, 3)
@@ -499,7 +501,7 @@ def run_shard(spec, res):
             case = gen_prog_case(rng)
             case["kind"] = "halves"
             case["calls"] = gen_calls(rng, rng.randint(4, 60))
-            run_case(prop, case, res)
+            guarded(run_case, prop, case, res)
             res.evaluations += 1
             if it < 1:
                 res.sample(case, 3)
